@@ -105,6 +105,9 @@ def teardown_atomizer(F, nostd):
     return atom
 
 
+_VERIFY_VECS = set()      # creation sites of the vectors handed to FnMocker::verify on some path of the teardown being analysed
+
+
 def teardown_outcome(path):
     o = path.outcome
     verified = path.called(r'fn_mocker::FnMocker::verify$')
@@ -115,6 +118,15 @@ def teardown_outcome(path):
             v = strip(v[2][0])      # (`Err(e)?` written through a helper that was opened up: the early return of that very Err)
         if v[0] == 'agg' and v[3] == 'Ok':
             return 'ok' + tag
+        # the verdict kept as the list of errors itself (empty = nothing to report) instead of Result<(), Vec<_>>
+        if v[0] == 'call' and is_call(v, r'SharedState::clone_panic_reasons$'):
+            return 'err:reasons' + tag
+        if v[0] == 'call' and is_call(v, r'Vec::new$|Vec::with_capacity$|Default>?::default$'):
+            handed = [e for e in path.calls(r'fn_mocker::FnMocker::verify$') if len(e.data[2]) > 1 and mentions(e.data[2][1], lambda x: x[0] == 'call' and len(x) > 3 and x[3] == v[3])]
+            if handed or v[3] in _VERIFY_VECS:
+                # the very vector FnMocker::verify fills (on this path for zero or more methods): empty exactly when every expectation was met
+                return 'errors+verify'
+            return 'ok' + tag               # a fresh, empty list: nothing to report
         if v[0] == 'agg' and v[3] == 'Err':
             payload = v[4][0][1]
             if mentions(payload, lambda x: is_call(x, r'SharedState::clone_panic_reasons$')) and strip(payload)[0] == 'call':
@@ -141,8 +153,8 @@ def teardown_oracle(nostd):
         base = dict(base, foreign_thread={0})
     rows += [
         ('recorded errors are forwarded, counts not judged', dict(base, reasons_empty={0}), 'err:reasons'),
-        ('no recorded errors, all expectations met', dict(base, reasons_empty={1}, errors_empty={1}), {'ok+verify', 'ok'}),
-        ('no recorded errors, unmet expectations', dict(base, reasons_empty={1}, errors_empty={0}), {'err:errors+verify'}),
+        ('no recorded errors, all expectations met', dict(base, reasons_empty={1}, errors_empty={1}), {'ok+verify', 'ok', 'errors+verify'}),
+        ('no recorded errors, unmet expectations', dict(base, reasons_empty={1}, errors_empty={0}), {'err:errors+verify', 'errors+verify'}),
     ]
     return rows
 
@@ -153,6 +165,13 @@ def teardown_table(chk, F, rule, config):
     it = symex.Interp(F, inline=inline_small_bool(F))
     paths = it.run(fn)
     chk.analysed(fn)
+    _VERIFY_VECS.clear()
+    for p_ in paths:
+        for e_ in p_.calls(r'fn_mocker::FnMocker::verify$'):
+            if len(e_.data[2]) > 1:
+                for x_ in symex.subvalues(e_.data[2][1]):
+                    if x_[0] == 'call' and len(x_) > 3 and re.search(r'Vec::new$|Vec::with_capacity$|Default>?::default$', x_[1]):
+                        _VERIFY_VECS.add(x_[3])
     rows = tables.abstract(paths, teardown_atomizer(F, nostd), teardown_outcome)
     tables.check_table(chk, rule, fn, rows, teardown_oracle(nostd), config=config)
     for r in rows[:3]:
@@ -420,9 +439,12 @@ def teardown_panic_table(chk, F, rule, config):
             var = decision_variant(F, d)
             if isinstance(var, str):
                 return ('teardown', {var})
+        inner_, t_ = truth_of(d)
+        if t_ is not None and is_call(inner_, r'Vec(<T, A>)?::is_empty$|<impl \[T\]>::is_empty$') and mentions(inner_, lambda x: is_call(x, r'^teardown::teardown$')):
+            return ('teardown', {'Ok' if t_ else 'Err'})      # (the verdict kept as the list of errors: empty = nothing to report)
         if is_iter_next(v):
             return IGNORE
-        return None
+        return  None
 
     def outcome(p):
         n = sum(1 for _ in p.calls(r'^teardown::teardown$'))
@@ -441,7 +463,8 @@ def teardown_panic_table(chk, F, rule, config):
         t = p.outcome
         last = [e for e in p.effects if e.kind == 'call'][-1]
         arg = last.data[2][0] if last.data[2] else ('unk', 'noarg')
-        src = lambda x: x[0] == 'field' and x[2] == '0' and x[1][0] == 'as' and x[1][2] == 'Err' and is_call(x[1][1], r'^teardown::teardown$')  # noqa: E731
+        src = lambda x: (x[0] == 'field' and x[2] == '0' and x[1][0] == 'as' and x[1][2] == 'Err' and is_call(x[1][1], r'^teardown::teardown$')) or \
+            (is_call(x, r'^teardown::teardown$') and fn.facts.fns['teardown::teardown'].locals[0]['ty'].startswith('std::vec::Vec<'))  # noqa: E731
         if pipeline_calls(arg, src) is None and accumulated_message(chk, rule, fn, config, p, arg, src):
             continue
         check_pipeline(chk, rule, fn, config, 'panic-message', arg, src, 'panic message of teardown_panic is built from every error')
@@ -513,9 +536,12 @@ def teardown_report_table(chk, F, rule, config):
             var = decision_variant(F, d)
             if isinstance(var, str):
                 return ('teardown', {var})
+        inner_, t_ = truth_of(d)
+        if t_ is not None and is_call(inner_, r'Vec(<T, A>)?::is_empty$|<impl \[T\]>::is_empty$') and mentions(inner_, lambda x: is_call(x, r'^teardown::teardown$')):
+            return ('teardown', {'Ok' if t_ else 'Err'})      # (the verdict kept as the list of errors: empty = nothing to report)
         if is_iter_next(v):
             return IGNORE
-        return None
+        return  None
 
     def outcome(p):
         if p.outcome[0] != 'return':
